@@ -50,8 +50,6 @@ def run(prop, mod, build, tier, seed, t0):
     violations = []       # dicts: kind, what, replay-able case, ...
     obligations = []      # (name, status, detail)
     build.prepare()
-    for kind, name, detail in build.broken:
-        obligations.append((f"{kind}:{name}", "broken", detail))
     changed = build.changed_gen()
 
     # --- proofs
@@ -82,9 +80,6 @@ def run(prop, mod, build, tier, seed, t0):
     build_tail = ""
     if not ok:
         build_tail = "\n".join(out.splitlines()[-25:])
-    hyg = build.hygiene()
-    for h in hyg:
-        obligations.append(("hygiene", "broken", h))
     proof_broken = [o for o in obligations if o[1] != "proved"]
 
     # --- correspondence
@@ -98,6 +93,24 @@ def run(prop, mod, build, tier, seed, t0):
     except Exception:  # noqa: BLE001
         obligations.append(("correspondence-harness", "broken", traceback.format_exc()[-1500:]))
         proof_broken = [o for o in obligations if o[1] != "proved"]
+
+    # --- generation failures that concern this property: those of the Gen files its theorems or
+    #     judges (transitively) import
+    roots = [f"Props/{prop}.v"]
+    mf = build.module_files()
+    for imp in getattr(build, "judge_modules", set()):
+        for name in imp.split():
+            if name in mf:
+                roots.append(mf[name])
+    deps = build.closure(roots)
+    for h in build.hygiene(only=deps):
+        obligations.append(("hygiene", "broken", h))
+    dep_gen = {os.path.basename(f) for f in deps if f.startswith("Gen/")}
+    for kind, name, detail, gfiles in build.broken:
+        if dep_gen & set(gfiles):
+            obligations.append((f"{kind}:{name}", "broken", detail))
+    changed = [c for c in changed if c in dep_gen]
+    proof_broken = [o for o in obligations if o[1] != "proved"]
 
     # --- classify
     rdir = os.path.join(vlib.VERIF, "evidence", "replays")
@@ -150,7 +163,9 @@ def run(prop, mod, build, tier, seed, t0):
         "checker_cmd": f"cd build/<scratch> && make -j16 {props_file[:-2]}.vo  (coqc 8.16.1, full .vo build of the "
                        f"regenerated development; Print Assumptions under every property theorem)",
         "trusted_base": mod.TRUSTED_BASE if hasattr(mod, "TRUSTED_BASE") else [],
-        "generated_fragments": build.gen_report,
+        "generated_fragments": {k: v for k, v in build.gen_report.items()
+                                if k in dep_gen or any(g in dep_gen for g in ([("S_" + k[:-3] + ".v")] if k.endswith(".py") else []))},
+        "depends_on_generated": sorted(dep_gen),
         "generated_files_changed_vs_reference": changed,
         "known_findings_hit": known_hit,
     })
